@@ -167,11 +167,20 @@ func checkFut(keyBase string, ft fut) (res futResult) {
 			// clause 3: compiling the same source again gives the same dump
 			d2, o := dump(F, f, false, emptyDef())
 			if o.status != "ok" || d2 != d1 {
+				// classify: only opcode words differ and both dumps behave alike
+				// (benign nondeterminism of the compiler) / anything else
+				clause := "recompile-dump-structure"
 				also := "not determined (dump failed: " + o.String() + ")"
 				if o.status == "ok" {
-					also = behaviourOfDumps(d1, d2, args)
+					same := false
+					also, same = behaviourOfDumps(d1, d2, args)
+					if !same {
+						clause = "recompile-behaviour-differs"
+					} else if onlyOpsDiffer(d1, d2) {
+						clause = "recompile-dump-differs"
+					}
 				}
-				violOnce("recompile-dump-differs", "compiling the same source in two fresh runtimes gave two different dumps (lengths %d / %d, first difference at byte %d)\ndiffering fields:\n%sbehaviour of the two dumps with args %s: %s",
+				violOnce(clause, "compiling the same source in two fresh runtimes gave two different dumps (lengths %d / %d, first difference at byte %d)\ndiffering fields:\n%sbehaviour of the two dumps with args %s: %s",
 					len(d1), len(d2), firstDiff(d1, d2), describeDiff(d1, d2), argsStr(tuple), also)
 			}
 		}
@@ -232,7 +241,7 @@ func checkFut(keyBase string, ft fut) (res futResult) {
 
 // behaviourOfDumps loads two dumps in fresh runtimes and says whether they
 // behave alike (used to qualify a compile-nondeterminism report).
-func behaviourOfDumps(d1, d2 string, args []rt.Value) string {
+func behaviourOfDumps(d1, d2 string, args []rt.Value) (string, bool) {
 	run := func(d string) string {
 		M := newMachine()
 		defer M.Close()
@@ -244,7 +253,32 @@ func behaviourOfDumps(d1, d2 string, args []rt.Value) string {
 	}
 	a, b := run(d1), run(d2)
 	if a == b {
-		return "identical (" + a + ")"
+		return "identical (" + a + ")", true
 	}
-	return "DIFFERENT\n first:  " + a + "\n second: " + b
+	return "DIFFERENT\n first:  " + a + "\n second: " + b, false
+}
+
+// onlyOpsDiffer reports whether two dumps have the same structure and differ
+// in opcode words only.
+func onlyOpsDiffer(a, b string) bool {
+	if len(a) != len(b) {
+		return false
+	}
+	fa, err := parseDump(a)
+	if err != nil {
+		return false
+	}
+	fb, err := parseDump(b)
+	if err != nil || len(fa) != len(fb) {
+		return false
+	}
+	for i, f := range fa {
+		if fb[i] != f {
+			return false
+		}
+		if f.kind != "op" && a[f.off:f.off+f.n] != b[f.off:f.off+f.n] {
+			return false
+		}
+	}
+	return true
 }
